@@ -30,7 +30,31 @@ def resJ : Except Err Program → Json
     obj [("err", Json.str "PrematureEOF"), ("line", nat l), ("msg", Json.str "premature end of file")]
   | .error (.tokenRequired d l) =>
     obj [("err", Json.str "TokenRequired"), ("line", nat l), ("msg", strToJson (d ++ " expected".toList))]
+  | .error (.syntaxError m l) =>
+    obj [("err", Json.str "PybtexSyntaxError"), ("line", nat l), ("msg", strToJson m)]
   | .error .outOfFuel => obj [("err", Json.str "MODEL:outOfFuel")]
+
+/-! flat form of the abstract syntax (no nested JSON, integers as decimal strings): used for very
+deep nesting and very long integers, which neither side's JSON library handles -/
+
+mutual
+  def tokFlat : Tok → List Json
+    | .int v => [arr [Json.str "i", Json.str (toString v)]]
+    | .str s => [arr [Json.str "s", strToJson s]]
+    | .quoted n => [arr [Json.str "q", strToJson n]]
+    | .name n => [arr [Json.str "n", strToJson n]]
+    | .fn body => Json.str "{" :: (toksFlat body ++ [Json.str "}"])
+  def toksFlat : List Tok → List Json
+    | [] => []
+    | t :: ts => tokFlat t ++ toksFlat ts
+end
+
+def progFlat (p : Program) : Json :=
+  arr (p.map fun c => obj [("c", strToJson c.name), ("g", arr (c.groups.map fun g => arr (toksFlat g)))])
+
+def resFlat : Except Err Program → Json
+  | .ok p => obj [("ok_flat", progFlat p), ("depth", nat (Program.depth p))]
+  | r => resJ r
 
 /-! reading the abstract syntax, lexemes and lay-outs -/
 
@@ -99,14 +123,33 @@ def outcomes (text : Str) : List (String × Json) :=
   [("string", resJ (parseString text)), ("stream", resJ (parseStream text)),
    ("file", resJ (parseFile text))]
 
+def outcomesFlat (text : Str) : List (String × Json) :=
+  [("string", resFlat (parseString text)), ("stream", resFlat (parseStream text)),
+   ("file", resFlat (parseFile text))]
+
+/-- deepest brace nesting of a text (counted on the characters; for the resource-limit cases) -/
+def braceDepth (s : Str) : Nat :=
+  (s.foldl (fun (acc : Nat × Nat) c =>
+    if c = '{' then (acc.1 + 1, max acc.2 (acc.1 + 1))
+    else if c = '}' then (acc.1 - 1, acc.2) else acc) (0, 0)).2
+
+/-- longest run of ASCII digits of a text -/
+def digitRun (s : Str) : Nat :=
+  (s.foldl (fun (acc : Nat × Nat) c =>
+    if isDigit c then (acc.1 + 1, max acc.2 (acc.1 + 1)) else (0, acc.2)) (0, 0)).2
+
 /-- op `bstparse`: source text ↦ outcome of each entry point; per-line `strip_comment` -/
 def bstparse (j : Json) : Except String Json := do
   let src ← getStr j "src"
-  pure (obj [("out", obj (outcomes src)),
+  let flat := (j.getObjValAs? Bool "flat").toOption.getD false
+  pure (obj [("out", obj (if flat then outcomesFlat src else outcomes src)),
              ("spec", obj [("lines", strs (splitLines src)),
                            ("stripped", strs ((splitLines src).map stripComment)),
                            ("plain", Json.bool (plainBreaks src)),
-                           ("notrail", Json.bool (noTrailingWs src))])])
+                           ("notrail", Json.bool (noTrailingWs src)),
+                           ("brace_depth", nat (braceDepth src)),
+                           ("digit_run", nat (digitRun src)),
+                           ("int_limit", nat intDigitLimit)])])
 
 /-- op `bststrip`: one line ↦ `strip_comment(line)` -/
 def bststrip (j : Json) : Except String Json := do
@@ -121,9 +164,11 @@ def bstrt (j : Json) : Except String Json := do
   let text := print p L
   pure (obj [("out", obj (("text", strToJson text) :: outcomes text)),
              ("spec", obj [("prog", progJ p), ("wf", Json.bool (decide (WFProg p))),
-                           ("plain", Json.bool (plainBreaks text))])])
+                           ("plain", Json.bool (plainBreaks text)),
+                           ("depth", nat (Program.depth p))])])
 
 def readingJ (ls : List Lex) (gaps : List Gap) (text : Str) : Reading → Json
+  | .lexicalError _ => Json.null   -- `read` never gives it
   | .prog p => obj [("ok", progJ p)]
   | .badCommand i =>
     obj [("err", Json.str "TokenRequired"), ("line", nat (lexLine ls gaps i)), ("msg", Json.str "BST command expected")]
@@ -132,19 +177,105 @@ def readingJ (ls : List Lex) (gaps : List Gap) (text : Str) : Reading → Json
   | .prematureEnd =>
     obj [("err", Json.str "PrematureEOF"), ("line", nat (eofLine text)), ("msg", Json.str "premature end of file")]
 
+/-- a lexeme, or raw text written as it is (`["raw", text]`) -/
+inductive XLex where
+  | lex (l : Lex)
+  | raw (s : Str)
+
+def xlexOfJ (j : Json) : Except String XLex := do
+  let a ← j.getArr?
+  let tag ← (a[0]!).getStr?
+  if tag == "raw" then pure (.raw (← jsonToStr a[1]!)) else pure (.lex (← lexOfJ j))
+
+/-- raw text never asks for a separating blank (it counts as a brace for `needsGap`) -/
+def XLex.shadow : XLex → Lex
+  | .lex l => l
+  | .raw _ => .lb
+
+def XLex.text : XLex → Str
+  | .lex l => l.text
+  | .raw s => s
+
+/-- `render` with raw pieces -/
+def renderX : Option Lex → List XLex → List Gap → Str
+  | _, [], gs => gapText (gs.headD [])
+  | prev, x :: xs, gs =>
+    sepText prev x.shadow (gs.headD []) ++ (x.text ++ renderX (some x.shadow) xs gs.tail)
+
+/-- the lexemes in front of the first raw piece -/
+def lexPrefix : List XLex → List Lex
+  | .lex l :: xs => l :: lexPrefix xs
+  | _ => []
+
+/-- reading of a lexeme sequence followed by text that cannot begin a token, with the line -/
+def readingBadJ (ls : List Lex) (gaps : List Gap) : Reading → Json
+  | .badCommand i =>
+    obj [("err", Json.str "TokenRequired"),
+         ("line", nat (if i < ls.length then lexLine ls gaps i else tailLine ls gaps)),
+         ("msg", Json.str "BST command expected")]
+  | .braceExpected i =>
+    obj [("err", Json.str "TokenRequired"),
+         ("line", nat (if i < ls.length then lexLine ls gaps i else tailLine ls gaps)),
+         ("msg", Json.str "'{' expected")]
+  | .lexicalError _ =>
+    obj [("err", Json.str "TokenRequired"), ("line", nat (tailLine ls gaps)),
+         ("msg", Json.str "name or string or integer or '{' or '}' expected")]
+  | _ => Json.null
+
 /-- op `bstlex`: arbitrary lexeme sequence + lay-out ↦ the Lean rendering, what the model parses
-from it, and the reference reading of the lexeme sequence with the line of the offending lexeme -/
+from it, and the reference reading of the lexeme sequence with the line of the offending lexeme.
+With a raw piece: the text is `render none pre gaps ++ T` (`pre` = the lexemes in front of the
+first raw piece, `T` = everything from that piece on); when `T` cannot begin a token (`lexBad`)
+the reference is `readBad pre`. -/
 def bstlex (j : Json) : Except String Json := do
-  let ls ← (← getArr j "lexs").mapM lexOfJ
+  let xs ← (← getArr j "lexs").mapM xlexOfJ
   let L ← layoutOfJ (← j.getObjVal? "layout")
-  let text := render none ls L.gaps ++ trailerText L.trailer
-  pure (obj [("out", obj (("text", strToJson text) :: outcomes text)),
-             ("spec", obj [("reading", readingJ ls L.gaps text (read ls)),
-                           ("wf", Json.bool (ls.all wfLex)),
-                           ("plain", Json.bool (plainBreaks text))])])
+  let pre := lexPrefix xs
+  match xs.drop pre.length with
+  | [] =>
+    let ls := pre
+    let text := render none ls L.gaps ++ trailerText L.trailer
+    pure (obj [("out", obj (("text", strToJson text) :: outcomes text)),
+               ("spec", obj [("reading", readingJ ls L.gaps text (read ls)),
+                             ("wf", Json.bool (ls.all wfLex)),
+                             ("plain", Json.bool (plainBreaks text))])])
+  | x :: rest =>
+    let T := x.text ++ renderX (some .lb) rest (L.gaps.drop (pre.length + 1)) ++ trailerText L.trailer
+    let text := render none pre L.gaps ++ T
+    pure (obj [("out", obj (("text", strToJson text) :: outcomes text)),
+               ("spec", obj [("reading", readingBadJ pre L.gaps (readBad pre)),
+                             ("wf", Json.bool (pre.all wfLex && lexBad T)),
+                             ("lexbad", Json.bool (lexBad T)),
+                             ("plain", Json.bool (plainBreaks text))])])
+
+/-- op `bsteq`: two programs with their lay-outs ↦ what the model parses from each print-out and
+the model of `==` on the two results; reference: whether the two programs are the same -/
+def bsteq (j : Json) : Except String Json := do
+  let p1 ← (← getArr j "prog").mapM cmdOfJ
+  let L1 ← layoutOfJ (← j.getObjVal? "layout")
+  let p2 ← (← getArr j "prog2").mapM cmdOfJ
+  let L2 ← layoutOfJ (← j.getObjVal? "layout2")
+  let t1 := print p1 L1
+  let t2 := print p2 L2
+  let r1 := parseString t1
+  let r2 := parseString t2
+  let eqJ : Json := match r1, r2 with
+    | .ok a, .ok b => Json.bool (progEq a b)
+    | _, _ => Json.null
+  let neJ : Json := match r1, r2 with
+    | .ok a, .ok b => Json.bool (!progEq a b)
+    | _, _ => Json.null
+  let selfJ : Json := match r1 with
+    | .ok a => Json.bool (progEq a a)
+    | _ => Json.null
+  pure (obj [("out", obj [("text1", strToJson t1), ("text2", strToJson t2), ("p1", resJ r1),
+                          ("p2", resJ r2), ("eq", eqJ), ("ne", neJ), ("eq_self", selfJ)]),
+             ("spec", obj [("wf", Json.bool (decide (WFProg p1) && decide (WFProg p2))),
+                           ("same", Json.bool ((progJ p1).compress == (progJ p2).compress))])])
 
 /-- driver ops of this property: (op name, handler) -/
 def handlers : List (String × (Json → Except String Json)) :=
-  [("bstparse", bstparse), ("bststrip", bststrip), ("bstrt", bstrt), ("bstlex", bstlex)]
+  [("bstparse", bstparse), ("bststrip", bststrip), ("bstrt", bstrt), ("bstlex", bstlex),
+   ("bsteq", bsteq)]
 
 end Pybtex.Drv.C15
